@@ -19,7 +19,8 @@
     values            support_eq_freq, length_eq_mean, applyEntry_values, tip_length_update
     invariance        count_order_independent, count_perm, count_presentation_independent,
                       child_order_independent, reroot_independent, rooting_independent,
-                      rooting_tip_independent, consensus_presentation_independent
+                      rooting_tip_independent, consensus_presentation_independent,
+                      consensus_order_independent
     rejection         different_taxa_err
     insertion         consensus_splits_partial (one insertion keeps everything, adds at most the
                       new branch), Lemmas: insertSplit_adds (it does add it when compatible)
@@ -41,6 +42,8 @@ import Gotree.Lemmas.C09NoRepeat
 import Gotree.Lemmas.C09Invariance
 import Gotree.Lemmas.C09Bridge
 import Gotree.Lemmas.C09BridgeLen
+import Gotree.Lemmas.C09Singles
+import Gotree.Lemmas.C09SinglesLen
 
 namespace Gotree.C09
 open Gotree
@@ -195,6 +198,14 @@ theorem count_presentation_independent (all : List String) (us us' : List T)
     (x : Entry) (hx : x ∈ buildIdx all us) :
     ∃ y ∈ buildIdx all us', eqc all y.key x.key = true ∧ y.count = x.count ∧ y.len = x.len :=
   inv_equiv (buildIdx_inv all us) (buildIdx_inv all us') (flat_LEq all h) x hx
+
+/-- The same from the equivalence of the two flattened branch lists (which also covers a
+    permutation of the trees, `flatMap_perm`, and any combination). -/
+theorem count_presentation_independent_flat (all : List String) (us us' : List T)
+    (h : LEq all (us.flatMap (edgeKeys all)) (us'.flatMap (edgeKeys all)))
+    (x : Entry) (hx : x ∈ buildIdx all us) :
+    ∃ y ∈ buildIdx all us', eqc all y.key x.key = true ∧ y.count = x.count ∧ y.len = x.len :=
+  inv_equiv (buildIdx_inv all us) (buildIdx_inv all us') h x hx
 
 /-- Reordering the children of every node (any function `f` that permutes each
     child list) gives the same branch list. -/
@@ -365,7 +376,9 @@ theorem selected_compatible (ord : List Entry → List Entry) (hord : ∀ l, (or
       the frequency of `x`;
     * every such row with at least two tips on its stored side has its inner branch;
     * the tip branch of every such row with one tip has the row's mean length;
-    * the leaves are the leaves of the first tree. -/
+    * the leaves are the leaves of the first tree;
+    * there are exactly as many inner branches as selected rows with two tips on their
+      stored side (no bipartition twice, none missing). -/
 theorem consensus_exact (ord : List Entry → List Entry) (hord : ∀ l, (ord l).Perm l) (ts : List T) (c : Rat)
     (hc : 1/2 ≤ c ∧ c ≤ 1) (hdom : domB ts = true) :
     ∃ r, consensus ord ts c = .ok r ∧
@@ -382,7 +395,9 @@ theorem consensus_exact (ord : List Entry → List Entry) (hord : ∀ l, (ord l)
       (∀ x ∈ index ts, (c < freq ts x.key ∨ count ts x.key = ts.length) →
         ∀ a, rowNames (leavesL (norm ts.head!).kids) x = [a] →
         ∀ s ∈ r.splits, s.below = [a] → s.tip = true → s.e.len = meanLen ts x.key) ∧
-      (leavesL r.kids).Perm (leavesL (norm ts.head!).kids) := by
+      (leavesL r.kids).Perm (leavesL (norm ts.head!).kids) ∧
+      ni r.splits = ((selected ord ts c).filter fun x =>
+        decide (2 ≤ (rowNames (leavesL (norm ts.head!).kids) x).length)).length := by
   have hd := dom_of_domB ts hdom
   have hdeg := deg_of_domB ts hdom
   obtain ⟨cn, hcn⟩ := countAll_of_dom ts hd
@@ -402,7 +417,8 @@ theorem consensus_exact (ord : List Entry → List Entry) (hord : ∀ l, (ord l)
   rw [htips, halltips] at inv
   have hnr := hd.norepeat
   have hsx := selected_exact ord hord ts hne c hc hnr
-  refine ⟨r, hr, ?_, ?_, ?_, inv.perm⟩
+  have hcount := inner_count _ _ ts.length (selected ord ts c) r _ (fun a h => h) hsel inv
+  refine ⟨r, hr, ?_, ?_, ?_, inv.perm, by rw [hcount]; unfold innerRows; rw [List.length_map]⟩
   · intro s hs
     rcases inv.j1 s hs with h | ⟨htip, p, hp, hss, hl, hsu⟩
     · exact Or.inl h
@@ -428,27 +444,28 @@ example : domB exSingle = true ∧ ¬ (∀ t ∈ exSingle, okBelowL t.kids = tru
 
 /-! ### the consensus does not depend on the presentation of the collection -/
 
-/-- Two collections of the domain whose trees correspond one to one with equivalent
-    branch lists (`LEq`: the same bipartitions with the same lengths — which holds
-    when the trees are permuted (`count_order_independent`), their children
-    reordered (`child_order_independent`), their root moved (`reroot_independent`)
-    or placed on a branch (`rooting_independent`)), over the same tip index: both
+/-- Two collections of the domain, with as many trees, whose flattened branch lists are
+    equivalent (`LEq`: the same bipartitions with the same lengths — which holds when
+    the trees are permuted (`flatMap_perm`), or correspond one to one (`flat_LEq`) with
+    their children reordered (`child_order_independent`), their root moved
+    (`reroot_independent`) or placed on a branch (`rooting_independent`)), over the
+    same tip index: both
     runs succeed, with any bucket orders, and every inner branch of one result has a
     counterpart in the other on the same bipartition with the same length and the
     same support. -/
 theorem consensus_presentation_independent (ord ord' : List Entry → List Entry)
     (hord : ∀ l, (ord l).Perm l) (hord' : ∀ l, (ord' l).Perm l) (ts ts' : List T) (c : Rat)
     (hc : 1/2 ≤ c ∧ c ≤ 1) (hdom : domB ts = true) (hdom' : domB ts' = true)
-    (hu : univOf ts' = univOf ts)
-    (hE : F2 (fun u u' => LEq (univOf ts) (edgeKeys (univOf ts) u) (edgeKeys (univOf ts) u'))
-      (trees ts) (trees ts')) :
+    (hu : univOf ts' = univOf ts) (hlen : ts.length = ts'.length)
+    (hE : LEq (univOf ts) ((trees ts).flatMap (edgeKeys (univOf ts)))
+      ((trees ts').flatMap (edgeKeys (univOf ts)))) :
     ∃ r r', consensus ord ts c = .ok r ∧ consensus ord' ts' c = .ok r' ∧
       ∀ s ∈ r.splits, (∀ a, s.below ≠ [a]) →
         ∃ s' ∈ r'.splits, s'.tip = false ∧
           SameSide (leavesL (norm ts.head!).kids) s'.below s.below ∧
           s'.e.len = s.e.len ∧ s'.e.sup = s.e.sup := by
-  obtain ⟨r, hr, P1, _, _, _⟩ := consensus_exact ord hord ts c hc hdom
-  obtain ⟨r', hr', _, P2', _, _⟩ := consensus_exact ord' hord' ts' c hc hdom'
+  obtain ⟨r, hr, P1, _, _, _, _⟩ := consensus_exact ord hord ts c hc hdom
+  obtain ⟨r', hr', _, P2', _, _, _⟩ := consensus_exact ord' hord' ts' c hc hdom'
   refine ⟨r, r', hr, hr', ?_⟩
   have hd := dom_of_domB ts hdom
   have hd' := dom_of_domB ts' hdom'
@@ -485,8 +502,7 @@ theorem consensus_presentation_independent (ord ord' : List Entry → List Entry
     rw [← hu, hun']; exact (sortN_perm _).mem_iff
   have hmm : ∀ a, a ∈ tips ↔ a ∈ tips' := fun a => (hut a).symm.trans (hut' a)
   have hperm : tips.Perm tips' := (List.perm_ext_iff_of_nodup hT hT').2 hmm
-  have hn : (t0 :: rest).length = (t0' :: rest').length := by
-    have := F2.length_eq hE; simpa [trees] using this
+  have hn : (t0 :: rest).length = (t0' :: rest').length := hlen
   have hnr := hd.norepeat
   have hnr' := hd'.norepeat
   have hsel := selected_compatible ord hord (t0 :: rest) c hc hdom
@@ -497,7 +513,7 @@ theorem consensus_presentation_independent (ord ord' : List Entry → List Entry
   · -- the corresponding row of the other index
     have hidx' : index (t0' :: rest') = buildIdx (univOf (t0 :: rest)) (trees (t0' :: rest')) := by
       unfold index; rw [hu]
-    obtain ⟨y, hy, hye, hyc, hyl⟩ := count_presentation_independent (univOf (t0 :: rest))
+    obtain ⟨y, hy, hye, hyc, hyl⟩ := count_presentation_independent_flat (univOf (t0 :: rest))
       (trees (t0 :: rest)) (trees (t0' :: rest')) hE x hx
     rw [← hidx'] at hy
     have fx := support_eq_freq _ hnr x hx
@@ -545,23 +561,53 @@ theorem consensus_presentation_independent (ord ord' : List Entry → List Entry
       Or.inl fun a _ => (rowNames_perm hperm x).mem_iff.symm
     exact (e1.trans' e2).trans' (e3.trans' hss.symm')
 
+/-- In particular the order of the trees does not matter: for a permutation `ts'` of
+    `ts` both runs succeed and every inner branch of one result has a counterpart in
+    the other on the same bipartition, with the same length and the same support. -/
+theorem consensus_order_independent (ord ord' : List Entry → List Entry)
+    (hord : ∀ l, (ord l).Perm l) (hord' : ∀ l, (ord' l).Perm l) (ts ts' : List T) (hp : ts.Perm ts') (c : Rat)
+    (hc : 1/2 ≤ c ∧ c ≤ 1) (hdom : domB ts = true) (hdom' : domB ts' = true) :
+    ∃ r r', consensus ord ts c = .ok r ∧ consensus ord' ts' c = .ok r' ∧
+      ∀ s ∈ r.splits, (∀ a, s.below ≠ [a]) →
+        ∃ s' ∈ r'.splits, s'.tip = false ∧
+          SameSide (leavesL (norm ts.head!).kids) s'.below s.below ∧
+          s'.e.len = s.e.len ∧ s'.e.sup = s.e.sup := by
+  have hd := dom_of_domB ts hdom
+  have hd' := dom_of_domB ts' hdom'
+  have hu : univOf ts' = univOf ts := by
+    cases ts with
+    | nil => exact absurd rfl hd.ne
+    | cons t0 r =>
+      cases ts' with
+      | nil => exact absurd rfl hd'.ne
+      | cons t0' r' =>
+        have hm : norm t0' ∈ trees (t0 :: r) :=
+          List.mem_map.2 ⟨t0', hp.mem_iff.2 (by simp), rfl⟩
+        have hf : norm t0 ∈ trees (t0 :: r) := List.mem_map.2 ⟨t0, by simp, rfl⟩
+        have hf' : norm t0' ∈ trees (t0' :: r') := List.mem_map.2 ⟨t0', by simp, rfl⟩
+        have h3 := hd.deg _ hf
+        have h3' := hd'.deg _ hf'
+        show sortN (norm t0').tipNames = sortN (norm t0).tipNames
+        rw [tipNames_eq_leaves _ (by omega), tipNames_eq_leaves _ (by omega)]
+        exact sortN_eq_of_perm (hd.same _ hm)
+  exact consensus_presentation_independent ord ord' hord hord' ts ts' c hc hdom hdom' hu hp.length_eq
+    (LEq.of_perm (flatMap_perm _ (hp.map norm)))
+
 /-! ### the theorems' table is the Spec's table (the oracle's) -/
 
 /-- Bridge to the Spec the oracle evaluates: on the domain, the number of trees
     whose `T.usplitsAll` (Spec/Splits.lean) contains the canonical side of a set of
     tips `k` is the model-side count of the bitset of `k` (branch lists of the
     normed trees, up to complement). -/
-theorem spec_count_bridge (ts : List T) (hdom : domB ts = true)
-    (hns : ∀ t ∈ ts, okBelowL t.kids = true) (k : List String) (hk : k.Nodup) :
+theorem spec_count_bridge (ts : List T) (hdom : domB ts = true) (k : List String) (hk : k.Nodup) :
     C09S.count ts (canonSide (C09S.taxa ts) k) = count ts (bits (univOf ts) k) := by
-  obtain ⟨h1, h2, h3, h4, h5⟩ := bridge_hyps ts (dom_of_domB ts hdom) hns
-  exact spec_count_eq ts k hk h1 h2 h3 h4 h5 hns
+  obtain ⟨h1, h2, h3, h4, h5⟩ := bridge_hyps_norm ts (dom_of_domB ts hdom)
+  exact spec_count_eq_norm ts k hk h1 h2 h3 h4 h5
 
 /-- … in particular for the rows of the index: the Spec's count and frequency of
     the canonical side of a row are the row's `count` and `freq` of
     `selected_exact` / `consensus_exact`. -/
-theorem spec_row_bridge (ts : List T) (hdom : domB ts = true)
-    (hns : ∀ t ∈ ts, okBelowL t.kids = true) (x : Entry) (hx : x ∈ index ts) :
+theorem spec_row_bridge (ts : List T) (hdom : domB ts = true) (x : Entry) (hx : x ∈ index ts) :
     C09S.count ts (canonSide (C09S.taxa ts) x.key) = count ts x.key ∧
     C09S.freq ts (canonSide (C09S.taxa ts) x.key) = freq ts x.key := by
   have hkey : IsKey (univOf ts) x.key := (buildIdx_inv _ _).keys x hx
@@ -579,23 +625,23 @@ theorem spec_row_bridge (ts : List T) (hdom : domB ts = true)
       rw [this]
       exact (sortN_perm _).nodup_iff.2 (hd.nodup _ hf)
   have hk : x.key.Nodup := by rw [isKey_eq_filter hkey]; exact hund.filter _
-  have hc := spec_count_bridge ts hdom hns x.key hk
+  have hc := spec_count_bridge ts hdom x.key hk
   rw [hb] at hc
   exact ⟨hc, by unfold C09S.freq freq; rw [hc]⟩
 
 /-- The same for the lengths: when every branch length is absent or non-negative
     (`lensOK`), the Spec's length sum and mean length of the canonical side of a row
-    are the row's `lenM` and `meanLen`.  (For a rooted input the Spec fuses the two
-    root branches with `fuseLen`, the code with `UnRoot`'s `max(0,·)` rule.) -/
-theorem spec_len_bridge (ts : List T) (hdom : domB ts = true)
-    (hns : ∀ t ∈ ts, okBelowL t.kids = true) (hl : lensOK ts = true) (x : Entry)
+    are the row's `lenM` and `meanLen`.  (For a rooted input, and around a single-child
+    node, the Spec fuses the branches of one bipartition with `fuseLen`, the code adds
+    them with the `max(0,·)` rule of `UnRoot` / `RemoveSingleNodes`.) -/
+theorem spec_len_bridge (ts : List T) (hdom : domB ts = true) (hl : lensOK ts = true) (x : Entry)
     (hx : x ∈ index ts) :
     C09S.lenSum ts (canonSide (C09S.taxa ts) x.key) = lenM (univOf ts) (trees ts) x.key ∧
     C09S.meanLen ts (canonSide (C09S.taxa ts) x.key) = meanLen ts x.key := by
   have hkey : IsKey (univOf ts) x.key := (buildIdx_inv _ _).keys x hx
   have hb : bits (univOf ts) x.key = x.key := (isKey_eq_filter hkey).symm
   have hd := dom_of_domB ts hdom
-  obtain ⟨h1, h2, h3, h4, h5⟩ := bridge_hyps ts hd hns
+  obtain ⟨h1, h2, h3, h4, h5⟩ := bridge_hyps_norm ts hd
   have hund : (univOf ts).Nodup := by
     cases ts with
     | nil => exact absurd rfl hd.ne
@@ -608,22 +654,21 @@ theorem spec_len_bridge (ts : List T) (hdom : domB ts = true)
       rw [this]
       exact (sortN_perm _).nodup_iff.2 (hd.nodup _ hf)
   have hk : x.key.Nodup := by rw [isKey_eq_filter hkey]; exact hund.filter _
-  have hs := spec_lenSum_eq ts x.key hk h1 h2 h3 h4 h5 hd.norepeat hl hns
+  have hs := spec_lenSum_eq_norm ts x.key hk h1 h2 h3 h4 h5 hd.norepeat hl
   rw [hb] at hs
   refine ⟨hs, ?_⟩
   unfold C09S.meanLen meanLen
-  rw [hs, (spec_row_bridge ts hdom hns x hx).1]
+  rw [hs, (spec_row_bridge ts hdom x hx).1]
 
 /-- ★★ `consensus_exact` in the Spec's own terms (the quantities the oracle
-    evaluates on the implementation's output): on the domain, with lengths absent
-    or non-negative, every inner branch of the model's consensus is a side of a row
-    whose canonical side `cs` satisfies the Spec's selection rule
+    evaluates on the implementation's output): on the domain — single-child inner
+    nodes and rooted inputs included — every inner branch of the model's consensus is
+    a side of a row whose canonical side `cs` satisfies the Spec's selection rule
     `C09S.isSelected ts c cs`, and it carries `C09S.freq ts cs` as support and
-    `C09S.meanLen ts cs` as length; every row selected by the Spec's rule with two
-    tips on its stored side has its branch. -/
+    `C09S.meanLen ts cs` as length (lengths absent or ≥ 0); every row selected by the
+    Spec's rule with two tips on its stored side has its branch. -/
 theorem consensus_exact_spec (ord : List Entry → List Entry) (hord : ∀ l, (ord l).Perm l) (ts : List T) (c : Rat)
-    (hc : 1/2 ≤ c ∧ c ≤ 1) (hdom : domB ts = true)
-    (hns : ∀ t ∈ ts, okBelowL t.kids = true) (hl : lensOK ts = true) :
+    (hc : 1/2 ≤ c ∧ c ≤ 1) (hdom : domB ts = true) (hl : lensOK ts = true) :
     ∃ r, consensus ord ts c = .ok r ∧
       (∀ s ∈ r.splits, (∃ a, s.below = [a]) ∨
         (s.tip = false ∧ ∃ x ∈ index ts,
@@ -637,11 +682,11 @@ theorem consensus_exact_spec (ord : List Entry → List Entry) (hord : ∀ l, (o
           SameSide (leavesL (norm ts.head!).kids) s.below (rowNames (leavesL (norm ts.head!).kids) x) ∧
           s.e.len = C09S.meanLen ts (canonSide (C09S.taxa ts) x.key) ∧
           s.e.sup = C09S.freq ts (canonSide (C09S.taxa ts) x.key)) := by
-  obtain ⟨r, hr, P1, P2, _, _⟩ := consensus_exact ord hord ts c hc hdom
+  obtain ⟨r, hr, P1, P2, _, _, _⟩ := consensus_exact ord hord ts c hc hdom
   have hsel : ∀ x ∈ index ts, (C09S.isSelected ts c (canonSide (C09S.taxa ts) x.key) = true ↔
       (c < freq ts x.key ∨ count ts x.key = ts.length)) := by
     intro x hx
-    obtain ⟨h1, h2⟩ := spec_row_bridge ts hdom hns x hx
+    obtain ⟨h1, h2⟩ := spec_row_bridge ts hdom x hx
     unfold C09S.isSelected
     rw [h1, h2]
     simp
@@ -651,15 +696,15 @@ theorem consensus_exact_spec (ord : List Entry → List Entry) (hord : ∀ l, (o
     · exact Or.inl h
     · right
       refine ⟨htip, x, hx, (hsel x hx).2 hxs, hss, ?_, ?_⟩
-      · rw [hlen, (spec_len_bridge ts hdom hns hl x hx).2]
-      · rw [hsup, (spec_row_bridge ts hdom hns x hx).2]
+      · rw [hlen, (spec_len_bridge ts hdom hl x hx).2]
+      · rw [hsup, (spec_row_bridge ts hdom x hx).2]
   · intro x hx hxs h2
     obtain ⟨s, hs, htip, hss, hlen, hsup⟩ := P2 x hx ((hsel x hx).1 hxs) h2
     refine ⟨s, hs, htip, hss, ?_, ?_⟩
-    · rw [hlen, (spec_len_bridge ts hdom hns hl x hx).2]
-    · rw [hsup, (spec_row_bridge ts hdom hns x hx).2]
+    · rw [hlen, (spec_len_bridge ts hdom hl x hx).2]
+    · rw [hsup, (spec_row_bridge ts hdom x hx).2]
 
-example : lensOK exColl = true := by decide +kernel
+example : lensOK exColl = true ∧ lensOK exSingle = true := by decide +kernel
 
 /- a collection with a differing taxon (e renamed z in the second tree) is rejected -/
 example : (consensus id [exU1, exRoot [exInner 1 [exTip "a" 1, exTip "b" 1], exTip "c" 2,
@@ -709,7 +754,7 @@ does to any tree with unique tips. -/
     result is one of those or is new, and a new branch carries exactly `(len, sup)`,
     joins two inner nodes, and has below it either exactly the tips of `names` or
     `n - |names|` tips none of which is in `names` (i.e. the complementary side); the
-    leaves are unchanged. -/
+    leaves are unchanged; at most one inner branch more. -/
 theorem consensus_splits_partial (names : List String) (len sup : Rat) (t t' : T)
     (hnd : t.tipNames.Nodup) (hdeg : t.kids.length ≠ 1) (hn : names.Nodup)
     (h : insertSplit names len sup t = .ok t') :
@@ -717,7 +762,8 @@ theorem consensus_splits_partial (names : List String) (len sup : Rat) (t t' : T
     (∀ s' ∈ t'.splits, Old t.splits s' ∨
       IsNew (names.filter t.tipNames.contains) (names.filter t.tipNames.contains).length
         t.tipNames.length len sup s') ∧
-    (leavesL t'.kids).Perm (leavesL t.kids) ∧ (2 ≤ t.kids.length → 2 ≤ t'.kids.length) :=
+    (leavesL t'.kids).Perm (leavesL t.kids) ∧ (2 ≤ t.kids.length → 2 ≤ t'.kids.length) ∧
+    ni t'.splits ≤ ni t.splits + 1 :=
   insertSplit_spec names len sup t t' hnd hdeg hn h
 
 /-- The tip-length update of the loop (`t.br[0].SetLength(mean)`) changes the length
